@@ -94,7 +94,8 @@ def make_world(recipe, faults=()):
         tty=recipe.get("tty", True),
         stdin_chunks=recipe.get("stdin_chunks"),
         knobs=recipe.get("knobs"), faults=flts,
-        secrets_seed=recipe.get("secrets_seed", 1))
+        secrets_seed=recipe.get("secrets_seed", 1),
+        links=recipe.get("links"))
     peer = recipe.get("peer")
     if peer:
         world.peer = FakeEyaml(
@@ -127,6 +128,10 @@ class SeamGap(RuntimeError):
 
 
 def initial_fs(recipe):
+    """What every name reads as before the run (links: their target's bytes)."""
+    if recipe.get("links"):
+        from sim.world import World
+        return World(recipe["files"], links=recipe["links"]).snapshot()
     return {p: (d.encode("utf-8") if isinstance(d, str) else bytes(d))
             for p, d in recipe["files"].items()}
 
